@@ -9,7 +9,7 @@ ASSUMPTIONS = [
     "values are opaque tokens; task bodies have no side effects besides the harness record",
     "exhaustive only within the alphabet and bounds listed in coverage.bounds",
 ]
-MENU = ["item:c", "item:err", "item:errf", "item:unset", "flush:raise", "flush:raiseB", "flush:new", "flush:setraise", "flush:nested", "ins:mkitem", "ins:sync", "ins:iv", "ins:cancel", "leaf:re", "leaf:sh", "wrap:try"]
+MENU = ["item:c", "item:err", "item:errf", "item:unset", "flush:raise", "flush:raiseB", "flush:new", "flush:setraise", "flush:nested", "flush:hooknested", "flush:fcancel", "flush:setfcancel", "ins:mkitem", "ins:sync", "ins:iv", "ins:cancel", "leaf:re", "leaf:sh", "wrap:try"]
 CATS = ["flush-twice", "flush-empty", "flush-flushed", "flush-active", "flush-after-complete", "not-max-priority", "steer-ignored", "events-bracket", "item-computed-twice", "item-outside-flush", "outcome-mismatch", "r2-menu", "hang", "worker-died"]
 _ALLP = {"prio": ["steer", "default", "equal"]}
 LADDER = {"quick": [(5, 0, ["call"], _ALLP), (4, 1, ["call"], _ALLP), (3, 2, ["call"])],
@@ -18,7 +18,17 @@ SPEC = {"r1": True, "r2": True}
 
 
 def jobs(tier, seed):
-    return progx.ladder_jobs(LADDER[tier], MENU, CATS, SPEC)
+    for j in progx.ladder_jobs(LADDER[tier], MENU, CATS, SPEC):
+        yield j
+    # shape family over items of two (thorough: three) kinds: every nesting of tuple/list/dict in one yield; an item the
+    # scheduler does not see as a dependency would be computed by unwrap(), i.e. flushed from inside the task
+    leaves = (gen.IA, gen.IB) if tier == "quick" else (gen.IA, gen.IB, ("i", "c", "ok"))
+    m = 16 if tier == "quick" else 64
+    for i in range(m):
+        j = {"shape_slice": [i, m, tier], "shape_leaves": leaves, "menu": [], "k": 0, "convs": ["call"], "cats": CATS}
+        j.update(SPEC)
+        j.update(_ALLP)
+        yield j
 
 
 worker_init = progx.worker_init
@@ -33,4 +43,5 @@ def replay(case, env):
 
 
 def finish(acc, tier):
-    return {"bounds": {"ladder (size<=n, deviations<=k, conventions)": LADDER[tier], "menu": MENU, "categories judged": CATS}}
+    return {"bounds": {"ladder (size<=n, deviations<=k, conventions)": LADDER[tier], "menu": MENU, "categories judged": CATS,
+                       "shape family": "one yield of every tuple/list/dict of arity 0..3 whose elements are items of 2 (thorough 3) kinds or containers of arity 0..2 of them"}}
